@@ -5483,13 +5483,12 @@ GRwritechunk(int32       riid,   /* IN: access aid to GR */
     if (NULL == (ri_ptr = (ri_info_t *)HAatom_object(riid)))
         HGOTO_ERROR(DFE_RINOTFOUND, FAIL);
 
-    /* check if access id exists already */
-    if (ri_ptr->img_aid == 0) {
-        /* now get access id, use write access */
-        if (GRIgetaid(ri_ptr, DFACC_WRITE) == FAIL)
-            HGOTO_ERROR(DFE_INTERNAL, FAIL);
-    }
-    else if (ri_ptr->img_aid == FAIL)
+    /* get an access id that may write: one which an earlier read of the
+       image has opened for reading only is replaced, a chunk put into the
+       cache of such an id would be dropped when the id is closed */
+    if (ri_ptr->img_aid == FAIL)
+        HGOTO_ERROR(DFE_INTERNAL, FAIL);
+    if (GRIgetaid(ri_ptr, DFACC_WRITE) == FAIL)
         HGOTO_ERROR(DFE_INTERNAL, FAIL);
 
     comp_type = COMP_CODE_NONE;
